@@ -6,7 +6,7 @@ rejected accesses change nothing; the array machine incl. pointers refines a sha
 index tuples for every operation sequence, with and without `checked`; five laws refuted on the
 faithful model = known findings).
 Tie: (1) the extracted model (bin/c05_model) against the repository's own Variable::calculate_flat_index
-linked into harness/cpp/c05_flat.cpp, exhaustively on all shapes of 1-3 dimensions with extents 1..5 x
+linked into harness/cpp/c05_flatidx.cpp, exhaustively on all shapes of 1-3 dimensions with extents 1..5 x
 all index tuples in [-2, extent+2] plus indices around +-2^31 / +-2^32; (2) generated Cb programs through
 `main` for every access path (local / global / parameter array, struct member array, &a[i], p+-k, p++/p--,
 p[k], *p, *(p+k), `checked`/`try`) x read/write, compared with the model's run of the same operation list
@@ -186,12 +186,6 @@ def trips_known(c):
     member = loc in ("mlocal", "mglobal")
     for o in c["ops"]:
         t = o[0]
-        if t in ("R", "W", "A") and any(not (-T31 <= i < T31) for i in o[1]):
-            return "C05-index-narrowed-to-int"
-        if t == "PW" and not (-T31 <= o[1] < T31):
-            return "C05-index-narrowed-to-int"
-        if t in ("P+", "P-", "DA") and abs(o[1]) > 2 ** 60:
-            return "C05-pointer-offset-wraps"
         if member and len(dims) >= 3:
             return "C05-struct-member-rank3-rejected"
         if member and len(dims) == 2 and t == "W" and in_range(dims, o[1]) and row_major(dims, o[1]) < dims[0]:
@@ -445,7 +439,9 @@ def rand_tuple(rng, dims, p_bad):
     t = [rng.randrange(d) for d in dims]
     if rng.random() < p_bad:
         k = rng.randrange(len(dims))
-        t[k] = rng.choice([-2, -1, dims[k], dims[k] + 1, dims[k] + 2, -dims[k], 2 * dims[k]])
+        t[k] = rng.choice([-2, -1, dims[k], dims[k] + 1, dims[k] + 2, -dims[k], 2 * dims[k],
+                           # indices that do not fit an int (truncated before fix ff8053c): low 32 bits in range
+                           T32 + t[k], -T32 + t[k], 2 * T32 + t[k], T31, -T31 - 1, T31 + t[k], 2 ** 63 - 1, -(2 ** 63 - 1)])
     return t
 
 
@@ -481,7 +477,9 @@ def gen_ops(rng, c, nops):
             bad = rng.random() < p_bad and (mode == "plain" or t in ("PR", "PW", "DA"))
             if t in ("P+", "P-"):
                 sgn = 1 if t == "P+" else -1
-                q = rng.choice([-2, -1, n, n + 1]) if bad else rng.randrange(n)
+                # offsets whose product with 8 wrapped modulo 2^64 before fix 2bd3a28 land "inside" when wrapped
+                q = rng.choice([-2, -1, n, n + 1, T61 + rng.randrange(n), -T61 + rng.randrange(n), 2 * T61 + rng.randrange(n),
+                                2 ** 59 + 3, -2 ** 59 - 3]) if bad else rng.randrange(n)
                 k = (q - ptr) * sgn
                 o = (t, k)
                 if 0 <= q < n:
@@ -496,7 +494,7 @@ def gen_ops(rng, c, nops):
                     if 0 <= q < n:
                         ptr = q
             elif t in ("PR", "PW", "DA"):
-                q = rng.choice([-2, -1, n, n + 1]) if bad else rng.randrange(n)
+                q = rng.choice([-2, -1, n, n + 1, T32 + rng.randrange(n), -T32 + rng.randrange(n), T61 + rng.randrange(n)]) if bad else rng.randrange(n)
                 o = (t, q - ptr) if t != "PW" else (t, q - ptr, v)
             elif t == "DW":
                 o = (t, v)
@@ -700,7 +698,7 @@ def run(rep):
         if rc != 0:
             rep.violation("coqchk", {"log": txt[-3000:]}, "coqchk rejects the compiled C05 development", True)
     common.ensure_model(PROP)
-    leaf = common.build_leaf("c05_flat", ["src/common/debug_impl.cpp", "src/common/debug_messages.cpp"])
+    leaf = common.build_leaf("c05_flatidx", ["src/common/debug_impl.cpp", "src/common/debug_messages.cpp"])
     impl = common.build_impl("plain")
     hist, evaluations, nontrivial = {}, 0, set()
     samples = []
@@ -731,8 +729,7 @@ def run(rep):
     leaf_bad.sort(key=lambda b: (leaf_spec(b[0]) == b[3], len(b[0])))
     for (l, o, m, i) in leaf_bad[:3]:
         sp = leaf_spec(l)
-        small = all(abs(int(x)) < T31 for x in l.split("|")[1].split(",") if x.strip())
-        concrete = small and sp != i
+        concrete = sp != i
         rep.violation("leaf", {"kind": "leaf", "line": l, "model": m, "impl": i, "spec": sp, "origin": o,
                                "broken": "correspondence Model.calc_flat = Variable::calculate_flat_index"},
                       "calculate_flat_index and the proved model disagree on '%s': impl %s, model %s, property demands %s"
@@ -893,38 +890,13 @@ def run(rep):
             rep.violation("known-" + f["id"], b, "behaviour on the replay of %s matches neither the recorded defect nor the property" % f["id"], True)
         evaluations += 1
 
-    # ---------------------------------------------------------------- (6) int-boundary stream through main (defect sites)
-    bcases = boundary_cases(seed, tier)
-    bm = model_runs(bcases)
-    bruns = common.pmap(lambda c: run_case(impl, c), bcases)
-    nb_known = nb_fixed = 0
-    for c, (mr, mc, mp), rn in zip(bcases, bm, bruns):
-        evaluations += 1
-        bump("int-boundary:%s:rank%d" % (c["loc"], len(c["dims"])))
-        sr, sc = spec_run(c)
-        spec_pred = spec_prediction(c)
-        obs = observed(c, rn)
-        if agree(obs, predicted(c, mr, mc)):
-            if not agree(spec_view(obs), spec_pred):
-                nb_known += 1
-                nontrivial.add(json.dumps([c["loc"], c["dims"], c["ops"]]))
-                fid = trips_known(c)
-                if fid not in [f["id"] for f in common.known_findings(PROP)]:
-                    rep.violation("boundary", dict(c, kind="prog", program=gen_program(c), impl=rn),
-                                  "out-of-range access accepted and no known finding covers it (%s)" % fid)
-                else:
-                    rep.known(fid, next(f["what_fails"] for f in common.known_findings(PROP) if f["id"] == fid))
-        elif agree(spec_view(obs), spec_pred):
-            nb_fixed += 1
-        else:
-            rep.violation("boundary", dict(c, kind="prog", program=gen_program(c), model=[mr, mc], impl=rn, spec=[sr, sc]),
-                          "int-boundary access %s on %s %s: impl %s rc=%d matches neither the model nor the property"
-                          % ([op_text(o) for o in c["ops"]], c["loc"], ty(c["dims"]), rn["stdout"][:6], rn["rc"]), True)
-    if nb_fixed:
-        rep.notes.append("%d int-boundary cases now behave as the property demands although the model mirrors the recorded defect "
-                         "(defect repaired? then the model and the *_refuted theorems need updating)" % nb_fixed)
+    # ---------------------------------------------------------------- (6) int-boundary stream through main
+    # (indices around +-2^31 / +-2^32 at every site, pointer offsets around 2^59 / 2^61: since the fixes ff8053c and
+    #  2bd3a28 the model and the property agree there, so this is part of the main stream)
+    bcases = [c for c in boundary_cases(seed, tier) if well_formed(c)]
+    bad4 = check_stream(bcases, "int-boundary")
+    report(bad4, "int-boundary")
     rep.coverage["int_boundary_programs"] = len(bcases)
-    rep.coverage["int_boundary_defect_reproduced"] = nb_known
 
     rep.coverage.update({
         "evaluations": evaluations, "distinct_nontrivial": len(nontrivial),
@@ -937,7 +909,7 @@ def run(rep):
                             "[-n-2, n+2] for p+k, p-k, p[k], p[k]=v, *(p+k), p++, p--, &a[i] on 1-D arrays of 1..5 cells and small N-D shapes%s" % (
                                 n_exh, len(jobs), "; every out-of-range tuple as a single read and write through rotating locations" if tier == "thorough" else ""),
         "input_distribution": hist, "samples": samples,
-        "disagreements": len(leaf_bad) + mat_bad + len(bad1) + len(bad2) + len(bad3),
+        "disagreements": len(leaf_bad) + mat_bad + len(bad1) + len(bad2) + len(bad3) + len(bad4),
     })
     rep.assumptions += [
         "the Gallina model is hand-written from the named C++ sites and tied to them by differential runs, not by proof",
@@ -950,25 +922,20 @@ def run(rep):
 # ================================================================== boundary stream
 def boundary_cases(seed, tier):
     cases = []
-    big = [T32 + 1, -T32 + 1, T32, -T32, T31, -T31, T31 + 1, -T31 - 1, 2 * T32 + 1, T32 - 1]
+    big = [T32 + 1, -T32 + 1, T32, -T32, T31, -T31, T31 + 1, -T31 - 1, 2 * T32 + 1, T32 - 1, T31 - 1, 2 ** 63 - 1, -(2 ** 63 - 1)]
     k = 0
     for dims in ([4], [5], [2, 3], [3, 2], [2, 2, 2]):
         for loc in ["local", "global", "param"] + (["mlocal", "mglobal"] if len(dims) <= 2 else []):
             for pos in range(len(dims)):
-                for b in big if tier == "thorough" else big[:6]:
+                for b in big if tier == "thorough" else big[:8]:
                     for rw in ("R", "W"):
                         rng = rng_for(seed, "c05-bnd", k)
                         k += 1
                         t = [rng.randrange(1, d) if d > 1 else 0 for d in dims]
                         t[pos] = b
-                        if loc in ("mlocal", "mglobal") and len(dims) == 2 and rw == "W":
-                            t2 = [narrow32(x) for x in t]
-                            if in_range(dims, t2) and row_major(dims, t2) < dims[0]:
-                                continue
                         c = single_case(loc, dims, t, "R", ctx=k % 3)
                         if rw == "W":
-                            t2 = [narrow32(x) for x in t]
-                            c["ops"] = [("W", t, 77)] + ([("R", t2)] if in_range(dims, t2) and not (loc == "param" and len(dims) >= 2) else [])
+                            c["ops"] = [("W", t, 77)]
                         cases.append(c)
     # pointers: &a[big], p[big], p[big] = v, p +- big
     for dims in ([4], [5], [2, 3]):
@@ -978,18 +945,11 @@ def boundary_cases(seed, tier):
                 if len(dims) == 1:
                     cases.append(dict(single_case(loc, dims, [0], "R"), ops=[("A", [1]), ("PR", b)]))
                     cases.append(dict(single_case(loc, dims, [0], "R"), ops=[("A", [1]), ("PW", b, 55), ("R", [2])]))
-            for kk in (T61 + 1, T61, 2 * T61 + 2, -T61 + 1, T61 - 1, 2 ** 60, -(2 ** 60)):
+            for kk in (T61 + 1, T61, 2 * T61 + 2, -T61 + 1, T61 - 1, 2 ** 60, -(2 ** 60), 2 ** 59 - 1, 2 ** 59, -(2 ** 59), 2 ** 63 - 1):
                 cases.append(dict(single_case(loc, dims, [0] * len(dims), "R"), ops=[("A", [0] * len(dims)), ("P+", kk), ("D",)]))
                 cases.append(dict(single_case(loc, dims, [0] * len(dims), "R"),
                                   ops=[("A", [0] * (len(dims) - 1) + [1] if dims[-1] > 1 else [0] * len(dims)), ("P-", kk), ("D",)]))
                 cases.append(dict(single_case(loc, dims, [0] * len(dims), "R"), ops=[("A", [0] * len(dims)), ("DA", kk)]))
-    # p[k] into an N-D array, struct members of rank 3
-    for loc in ("local", "global"):
-        cases.append(dict(single_case(loc, [2, 3], [0, 0], "R"), ops=[("A", [0, 2]), ("PR", 0)], use_literal=False))
-        cases.append(dict(single_case(loc, [2, 3], [0, 0], "R"), ops=[("A", [0, 2]), ("PW", 1, 9)], use_literal=False))
-    for loc in ("mlocal", "mglobal"):
-        cases.append(single_case(loc, [2, 2, 3], [0, 0, 0], "R", init=[0] * 12))
-        cases.append(single_case(loc, [2, 2, 3], [1, 1, 2], "W", init=[0] * 12))
     return cases
 
 
@@ -1030,7 +990,7 @@ def replay(path):
     c = data["case"]
     common.ensure_model(PROP)
     if c.get("kind") == "leaf":
-        leaf = common.build_leaf("c05_flat", ["src/common/debug_impl.cpp", "src/common/debug_messages.cpp"])
+        leaf = common.build_leaf("c05_flatidx", ["src/common/debug_impl.cpp", "src/common/debug_messages.cpp"])
         inp = (c["line"] + "\n").encode()
         _, m, _ = common.sh([common.model_bin(PROP), "x"], input=inp)
         _, i, _ = common.sh([leaf], input=inp)
